@@ -2000,6 +2000,8 @@ def _project_variant(inner, want, fld, depth):
                     outs.append(simplify(a[2][0], depth + 1) if a[2] else a)
                 elif a and a[0] == 'agg' and a[1].get('variant') in ('Err', 'None'):
                     continue
+                elif is_call(a, name='from_residual'):
+                    continue  # FromResidual::from_residual always yields the Break-side value (Err / None)
                 else:
                     outs.append(('field', ('variant', ('call',) + tuple(inner[1:2]) + ([a],) + tuple(inner[3:]), want), fld))
             return simplify(('phi', outs), depth + 1) if outs else NEVER
